@@ -679,6 +679,214 @@ def part_large(chk, drv, runner):
         process(chk, "large", cases, drv, runner, shards=4)
 
 
+# ------------------------------------------------------------------ attachments (CLI vs a dictionary specification)
+
+def iso_of_pdfdate(d):
+    m = re.match(r"D:(\d{4})(\d\d)(\d\d)(\d\d)(\d\d)(\d\d)(Z|[+-]\d\d'\d\d')$", d)
+    if not m:
+        return None
+    tz = m.group(7)
+    tz = "Z" if tz == "Z" else tz[:3] + ":" + tz[4:6]
+    return "%s-%s-%sT%s:%s:%s%s" % (m.group(1), m.group(2), m.group(3), m.group(4), m.group(5), m.group(6), tz)
+
+
+def parse_list_verbose(text):
+    out, order, cur, stream = {}, [], None, None
+    for line in text.split("\n"):
+        m = re.match(r"^(\S.*) -> \d+,\d+$", line)
+        if m:
+            cur = {"names": {}, "streams": {}, "description": ""}
+            out[m.group(1)] = cur
+            order.append(m.group(1))
+            stream = None
+            continue
+        if cur is None:
+            continue
+        m = re.match(r"^  description: (.*)$", line)
+        if m:
+            cur["description"] = m.group(1); continue
+        m = re.match(r"^  preferred name: (.*)$", line)
+        if m:
+            cur["preferred"] = m.group(1); continue
+        m = re.match(r"^    (/\w+) -> (\d+,\d+)$", line)
+        if m:
+            stream = cur["streams"].setdefault(m.group(1), {}); continue
+        m = re.match(r"^    (/\w+) -> (.*)$", line)
+        if m:
+            cur["names"][m.group(1)] = m.group(2); continue
+        m = re.match(r"^      (creation date|modification date|mime type|checksum): (.*)$", line)
+        if m and stream is not None:
+            stream[m.group(1)] = m.group(2)
+    return out, order
+
+
+def part_attach(chk):
+    import hashlib
+    import pdfgen
+    rng = chk.rng
+    wd = common.workdir("C18")
+    quick = chk.tier == "quick"
+    sizes = [0, 1, 4095, 4096, 4097] + ([1 << 20] if not quick else [])
+    keys = ["a", "a.txt", "b", "ключ", "é", "中", "X-a", "a b", "Z", "att-1"]
+    prefixes = ["X-", "é", "1/"]
+    payload_files = []
+    for i, n in enumerate(sizes + [7, 300]):
+        data = bytes(rng.getrandbits(8) for _ in range(min(n, 5000))) * (1 if n <= 5000 else (n // 5000 + 1))
+        data = data[:n]
+        pth = os.path.join(wd, "payload%d.bin" % i)
+        open(pth, "wb").write(data)
+        payload_files.append((pth, data))
+    base = os.path.join(wd, "base.pdf")
+    open(base, "wb").write(pdfgen.write_classic(pdfgen.page_doc(1))[0])
+    dates = ["D:20200101120000Z", "D:20210203040506+05'30'", "D:19991231235959-08'00'", "D:20240229000000Z"]
+    nseq = 6 if quick else 60
+    nsteps = 6 if quick else 10
+    njobs = 0
+    nontriv = set()
+
+    def verify(path, exp, desc, touched):
+        """exp: key -> record. returns list of (why, signature)"""
+        bad = []
+        rc, so, se = common.run_qpdf([path, "--list-attachments", "--verbose"])
+        got, order = parse_list_verbose(so.decode("utf-8", "replace"))
+        want_order = sorted(exp, key=lambda k: k.encode("utf-8"))
+        if rc != 0 or order != want_order:
+            bad.append(("listed keys %r, expected %r (exit %d)" % (order, want_order, rc), "C18:attach:keys"))
+            return bad
+        rc, so, se = common.run_qpdf([path, "--json", "--json-key=attachments"])
+        try:
+            js = json.loads(so.decode("utf-8"))["attachments"]
+        except Exception:
+            js = None
+            bad.append(("--json attachments unreadable", "C18:attach:json"))
+        for k in want_order:
+            r, g = exp[k], got[k]
+            md5 = hashlib.md5(r["data"]).hexdigest()
+            if g.get("preferred") != r["filename"] or g["names"] != {"/F": r["filename"], "/UF": r["filename"]}:
+                bad.append(("file names of %r: %r" % (k, g["names"]), "C18:attach:names"))
+            if g["description"] != r["desc"]:
+                bad.append(("description of %r: %r" % (k, g["description"]), "C18:attach:description"))
+            for sk in ("/F", "/UF"):
+                st = g["streams"].get(sk)
+                if st is None:
+                    bad.append(("stream %s of %r missing" % (sk, k), "C18:attach:stream")); continue
+                if st.get("checksum") != md5:
+                    bad.append(("checksum of %r: %s, md5 of the data is %s" % (k, st.get("checksum"), md5), "C18:attach:checksum"))
+                if st.get("mime type") != r["mime"]:
+                    bad.append(("mime type of %r: %r" % (k, st.get("mime type")), "C18:attach:mime"))
+                for fld, val in (("creation date", r["cdate"]), ("modification date", r["mdate"])):
+                    if val is None:
+                        if not re.match(r"D:\d{14}Z$", st.get(fld, "")):
+                            bad.append(("%s of %r: %r" % (fld, k, st.get(fld)), "C18:attach:date"))
+                    elif st.get(fld) != val:
+                        bad.append(("%s of %r: %r, expected %r" % (fld, k, st.get(fld), val), "C18:attach:date"))
+            if js is not None:
+                j = js.get(k)
+                if j is None:
+                    bad.append(("json lacks key %r" % k, "C18:attach:json-keys")); continue
+                if j["preferredname"] != r["filename"] or (j["description"] or "") != r["desc"]:
+                    bad.append(("json name/description of %r" % k, "C18:attach:json-fields"))
+                for sk, st in j["streams"].items():
+                    if st["checksum"] != md5 or (st["mimetype"] or "") != r["mime"]:
+                        bad.append(("json checksum/mimetype of %r" % k, "C18:attach:json-fields"))
+                    if r["cdate"] is not None and st["creationdate"] != iso_of_pdfdate(r["cdate"]):
+                        bad.append(("json creationdate of %r: %r" % (k, st["creationdate"]), "C18:attach:json-date"))
+                    if r["mdate"] is not None and st["modificationdate"] != iso_of_pdfdate(r["mdate"]):
+                        sig = "C18:attach:json-date"
+                        listed_c = g["streams"].get(sk, {}).get("creation date", "")
+                        if st["modificationdate"] == iso_of_pdfdate(listed_c):
+                            sig = "C18:attach:json-moddate-is-creationdate"
+                        bad.append(("json modificationdate of %r: %r, the stream says %r" % (k, st["modificationdate"], r["mdate"]), sig))
+            if k in touched or len(exp) <= 3:
+                rc, so, se = common.run_qpdf([path, "--show-attachment=" + k])
+                if rc != 0 or so != r["data"]:
+                    bad.append(("--show-attachment=%s returned %d bytes (exit %d), stored %d" % (k, len(so), rc, len(r["data"])), "C18:attach:data"))
+        return bad
+
+    for sq in range(nseq):
+        # up to three documents, each with its expected dictionary
+        docs = [(base, {})]
+        for st in range(nsteps):
+            njobs += 1
+            di = rng.randrange(len(docs))
+            src, exp = docs[di]
+            out = os.path.join(wd, "s%d_%d.pdf" % (sq, st))
+            kind = rng.choice(["add", "add", "add", "replace", "remove", "copy", "addnew-doc"])
+            new = dict(exp)
+            touched = set()
+            expect_fail = False
+            if kind in ("add", "replace", "addnew-doc"):
+                if kind == "addnew-doc":
+                    src, exp, new = base, {}, {}
+                pth, data = rng.choice(payload_files)
+                key = rng.choice(keys)
+                rec = {"data": data, "filename": os.path.basename(pth), "cdate": None, "mdate": None, "mime": "", "desc": ""}
+                args = [src, "--add-attachment", pth, "--key=" + key]
+                if rng.random() < 0.6:
+                    rec["filename"] = rng.choice(["n.txt", "имя.bin", "a b.dat"]); args.append("--filename=" + rec["filename"])
+                if rng.random() < 0.8:
+                    rec["cdate"] = rng.choice(dates); args.append("--creationdate=" + rec["cdate"])
+                if rng.random() < 0.8:
+                    rec["mdate"] = rng.choice(dates); args.append("--moddate=" + rec["mdate"])
+                if rng.random() < 0.6:
+                    rec["mime"] = rng.choice(["text/plain", "application/octet-stream"]); args.append("--mimetype=" + rec["mime"])
+                if rng.random() < 0.5:
+                    rec["desc"] = rng.choice(["d", "описание", "two words"]); args.append("--description=" + rec["desc"])
+                if kind == "replace" or rng.random() < 0.2:
+                    args.append("--replace")
+                elif key in exp:
+                    expect_fail = True
+                args += ["--", "--static-id", out]
+                if not expect_fail:
+                    new[key] = rec
+                    touched.add(key)
+            elif kind == "remove":
+                key = rng.choice(sorted(exp)) if exp and rng.random() < 0.8 else rng.choice(keys)
+                args = [src, "--remove-attachment=" + key, "--static-id", out]
+                if key in exp:
+                    del new[key]
+                else:
+                    expect_fail = True
+            else:
+                oj = rng.randrange(len(docs))
+                other, oexp = docs[oj]
+                pre = rng.choice(prefixes) if rng.random() < 0.6 else ""
+                args = [src, "--copy-attachments-from", other] + (["--prefix=" + pre] if pre else []) + ["--", "--static-id", out]
+                for k, r in oexp.items():
+                    if pre + k in exp:
+                        expect_fail = True
+                    else:
+                        new[pre + k] = r
+                        touched.add(pre + k)
+            rc, so, se = common.run_qpdf(args)
+            desc = {"argv": ["qpdf"] + [a.replace(wd + "/", "") for a in args], "expected_keys_before": sorted(exp), "step": st}
+            if expect_fail:
+                if rc != 2:
+                    chk.violation({"kind": "property-fails-on-implementation", "part": "attachments", "case": desc,
+                                   "why": "the operation must be refused (key collision / missing key), exit %d" % rc})
+                continue
+            if rc != 0:
+                chk.violation({"kind": "property-fails-on-implementation", "part": "attachments", "case": desc,
+                               "why": "valid attachment operation failed: exit %d %s" % (rc, se.decode("latin-1")[-300:])})
+                continue
+            bad = verify(out, new, desc, touched)
+            seen = set()
+            for why, sig in bad:
+                if sig in seen:
+                    continue
+                seen.add(sig)
+                chk.violation({"kind": "property-fails-on-implementation", "part": "attachments", "case": desc, "why": why, "signature": sig},
+                              signature=sig)
+            if len(new) >= 2:
+                nontriv.add(tuple(desc["argv"]) + tuple(sorted(new)))
+            if kind == "addnew-doc" and len(docs) < 3:
+                docs.append((out, new))
+            else:
+                docs[di] = (out, new)
+    chk.count("attachments", njobs, nontriv, samples=[])
+    chk.cov["parts"]["attachments"]["payload_sizes"] = sizes + [7, 300]
+
+
 def run(chk):
     drv = os.path.join(common.DRV, "drv")
     runner = os.path.join(common.EXTRACT, "model_runner")
@@ -688,10 +896,14 @@ def run(chk):
                        "and two/three-level starts; random: weighted histories (grow/mixed/shrink/iterator profiles) over key sets of 12..10^4 "
                        "numbers or Unicode/PDFDoc/UTF-16 names from empty, flat (also above the split bound) and generated multi-level valid "
                        "trees, plus ascending/descending bulk loads and full removals; large: threshold 32 (default) and others over 10^5 keys. "
-                       "non-trivial = history during which the number of tree nodes changed (a split or a pruning), distinct by whole case")
+                       "non-trivial = history during which the number of tree nodes changed (a split or a pruning), distinct by whole case. "
+                       "attachments: sequences of qpdf --add-attachment / --replace / --remove-attachment / --copy-attachments-from [--prefix] over 1..3 files "
+                       "with colliding, prefixed and non-ASCII keys and payloads of 0,1,4095,4096,4097 (thorough: 2^20) bytes, checked after every step "
+                       "through --list-attachments --verbose, --json attachments and --show-attachment against a dictionary; non-trivial = step leaving >= 2 attachments")
     part_exhaustive(chk, drv, runner)
     part_random(chk, drv, runner)
     part_large(chk, drv, runner)
+    part_attach(chk)
 
 
 def replay(chk, rep):
